@@ -13,7 +13,7 @@ from common import U
 
 EXTRA_COQ_FILES = ('GenFacts/ConstantsOK.v',)
 RULE = ('index channels of all 8 dtypes with integer-valued data: patterns increasing / decreasing / constant / non-monotonic / uniform / '
-        'nearly uniform (deviation <= 2%% or >= 5%%, away from the 3.16%% threshold) / single row / wrapping-prone (uint8 descending, int8 '
+        'nearly uniform increasing and decreasing (deviation <= 2%% or >= 5%%, away from the 3.16%% threshold) / single row / wrapping-prone (uint8 descending, int8 '
         'large steps); windows; index type present or absent; user-supplied index_min / index_max / spacing / direction. Distinct by '
         '(dtype, pattern, rows, window, user values).')
 ASSUMPTIONS = ['float index data off the exactly representable grid or within 1e-9 of the tolerance threshold are below the model (numpy float arithmetic)']
@@ -28,7 +28,7 @@ def fbits(x):
 def gen_index(rng, dtype, rows):
     info = np.iinfo(dtype) if np.dtype(dtype).kind in 'iu' else None
     lo, hi = (info.min, info.max) if info else (-2**20, 2**20)
-    pat = rng.choice(['inc', 'dec', 'const', 'nonmono', 'uniform', 'uniform_dec', 'near', 'far', 'wrap'])
+    pat = rng.choice(['inc', 'dec', 'const', 'nonmono', 'uniform', 'uniform_dec', 'near', 'far', 'near_dec', 'far_dec', 'wrap'])
     def clamp(v):
         return [max(lo, min(hi, int(x))) for x in v]
     start = rng.randrange(max(lo, -50), min(hi, 50) + 1)
@@ -54,6 +54,10 @@ def gen_index(rng, dtype, rows):
         v, acc = [], 0
         for i in range(rows):
             v.append(acc); acc += 100 + rng.choice([-2, -1, 0, 1, 2])
+    elif pat in ('near_dec', 'far_dec'):      # decreasing, nearly uniform / clearly not uniform
+        v, acc = [], min(hi, 5000)
+        for i in range(rows):
+            v.append(acc); acc -= 100 + rng.choice([-2, -1, 0, 1, 2] if pat == 'near_dec' else [-9, -6, 0, 6, 9])
     elif pat == 'far':
         v, acc = [], 0
         for i in range(rows):
